@@ -6,6 +6,7 @@ CONSTANTS
 INVARIANTS
   P_C09_Select
   P_C09_NoPanic
+  P_C09_Exhaustive
   P_C09_Bound
   P_C09_IgnoreStable
   P_Ext_Provide
